@@ -512,11 +512,8 @@ func snapshot(native *native.NativeService, number uint64, hash ecommon.Hash, ta
 		return
 	}
 
-	if lastSeenHeight > 0 {
-		return
-	}
-
-	// try to search enough recent
+	// the most recent header of the signer among the last len(signers)/2 ancestors decides the recent-signer window; a
+	// sighting in a checkpoint or vote header further back must not hide it
 	toSearch := len(snap.Signers) / 2
 	for i := 0; i < toSearch; i++ {
 		headerWS, err = getHeader(native, startHash, ctx.ChainID)
